@@ -411,6 +411,7 @@ func genDaemon(r *vRng, tier string, w *bufio.Writer) {
 	names := []string{"20200101.010101.000.cptv", "20200102.020202.000.cptv.temp", "20200102.020202.000.cptv.temp.tmp",
 		"notes.txt", "x.cptv.temporary", "cptv.temp", ".cptv.temp", "a.cptv.tmp", "20200103.030303.000.cptv", "b.CPTV.TEMP", "c.cptv.tem"}
 	skip := false
+	refused := false
 	sc := bufio.NewScanner(&buf)
 	sc.Buffer(make([]byte, 1<<20), 1<<28)
 	for sc.Scan() {
@@ -429,6 +430,7 @@ func genDaemon(r *vRng, tier string, w *bufio.Writer) {
 				}
 			}
 			f[2] = "daemon"
+			refused = false
 			fmt.Fprintln(w, strings.Join(f, " "))
 			for _, n := range names {
 				if r.chance(40) {
@@ -442,10 +444,23 @@ func genDaemon(r *vRng, tier string, w *bufio.Writer) {
 			continue
 		}
 		fmt.Fprintln(w, line)
-		if f[0] == "b" && r.chance(10) {
+		if f[0] == "n" {
+			refused = false
+		}
+		if f[0] == "b" {
+			// a camera the recorder has no parser for: the daemon ends that connection itself after the header and is
+			// free to accept the next one, so "a second connection while one is being served" cannot be asked any more
+			if data, err := hex.DecodeString(f[2]); err == nil {
+				txt := string(data)
+				if strings.Contains(txt, "Brand: acme") || strings.Contains(txt, "Model: lepton2") || strings.Contains(txt, "Model: Boson") {
+					refused = true
+				}
+			}
+		}
+		if f[0] == "b" && !refused && r.chance(10) {
 			fmt.Fprintln(w, "second")
 		}
-		if f[0] == "b" && f[1] != "0" && r.chance(10) {
+		if f[0] == "b" && !refused && f[1] != "0" && r.chance(10) {
 			fmt.Fprintln(w, "info")
 		}
 		if f[0] == "end" {
